@@ -144,7 +144,7 @@ theorem getTokenIDAndSubject_eq (now : Int) (p : ResProvider) (tok : String) :
     cases hv : Gen.OPVerifyAccessToken now (p.tokenOf tok) p.verifier <;> simp [resolved]
 
 theorem getTokenIDAndSubjectForRevocation_eq (now : Int) (p : ResProvider) (tok : String) :
-    GenRes.getTokenIDAndSubjectForRevocation now p tok = resolved (resolve now p tok) := by
+    GenRes.getTokenIDAndSubjectForRevocation now p tok = .ok (resolved (resolve now p tok)) := by
   unfold GenRes.getTokenIDAndSubjectForRevocation resolve ResProvider.Crypto ResProvider.AccessTokenVerifier Hand.resVerifyAccessToken
   simp only []
   cases hd : p.decrypt tok with
@@ -155,8 +155,10 @@ theorem getTokenIDAndSubjectForRevocation_eq (now : Int) (p : ResProvider) (tok 
     · rw [if_pos h1]
       split <;> simp_all [resolved]
   | error e =>
-    simp only []
-    cases hv : Gen.OPVerifyAccessToken now (p.tokenOf tok) p.verifier <;> simp [resolved]
+    -- the key-set recorder of the revocation reader hands the verifier on unchanged and never holds an error in this model
+    simp only [ResRevocationKeys.verifier]
+    cases hv : Gen.OPVerifyAccessToken now (p.tokenOf tok) p.verifier <;>
+      simp [resolved, Go.notNil, Go.Nilable.isNil, show (default : ResRevocationKeys).err.isSet = false from rfl]
 
 /-- `getTokenIDAndClaims` (token exchange): the same decision, plus the claims of a JWT -/
 theorem getTokenIDAndClaims_eq (now : Int) (p : ResProvider) (tok : String) :
